@@ -34,6 +34,9 @@ def gen_cases(rng, tier: str) -> list[dict]:
             tw = [t for _, t in gen.twin_patterns(g)]
             pool3 = H.float_pool(rng.sample(tw, min(3, len(tw))))
             cases.append({"origin": "twins", "pool": H.pool_to_wire(pool3), "ops": H.random_ops(rng, pool3, L)})
+        if h % 8 == 5:
+            pool8, ops8 = H.long_lived(rng, 260 if tier == "quick" else 2200)
+            cases.append({"origin": "long-lived", "pool": H.pool_to_wire(pool8), "ops": ops8})
         if h % 4 == 1:
             pool7 = H.float_pool(H.nested_pool(rng))
             for ops in H.sharing_prefixes(rng, pool7):
